@@ -16,7 +16,9 @@ from ebpfcat.ethercat import EtherCat, Terminal
 PROP = "C20"
 LEVEL = "model_checking"
 RULE = ("all sequences of map(read) / map(write) / unmap(i-th live mapping) "
-        "up to the length bound on terminals with 1..4 FMMUs; non-trivial = "
+        "up to the length bound on terminals with 1..4 FMMUs, at most one "
+        "operation per sequence with an injected bus fault (its first FMMU "
+        "register write is not processed); non-trivial = "
         "at least two mappings were live at some point; distinct = distinct "
         "canonical state (FMMU registers, live set)")
 KF = "C20-write-slot-formula"
@@ -37,6 +39,18 @@ class World:
         self.live = []      # (logical, write, cm, slot)
         self.counter = 0
         self.everlive = 0
+        self.faults = 0
+        self.fail_next = False
+        orig = self.t.write
+
+        def write(ado, data):
+            # injected bus fault: the next write to an FMMU register is not
+            # processed by the terminal (working counter stays 0)
+            if self.fail_next and 0x600 <= ado < 0x700:
+                self.fail_next = False
+                return False
+            return orig(ado, data)
+        self.t.write = write
 
     def close(self):
         self.loop.shutdown()
@@ -44,6 +58,15 @@ class World:
 
     def do(self, op):
         """-> (kind, detail)"""
+        if len(op) > 2 and op[2]:
+            self.fail_next = True
+            self.faults += 1
+        try:
+            return self._do(op)
+        finally:
+            self.fail_next = False
+
+    def _do(self, op):
         if op[0] == "map":
             self.counter += 1
             logical = 0x10000 * self.counter + 0x100
@@ -62,7 +85,7 @@ class World:
         if not self.m.run(fut, max_frames=50):
             return ("hang", None)
         if fut.exception() is not None:
-            return ("unmap failed", type(fut.exception()).__name__)
+            return ("unmap raised", type(fut.exception()).__name__)
         return ("unmapped", slot)
 
     def fmmu_regs(self):
@@ -94,8 +117,18 @@ class World:
         if len(set(slots.values())) != len(slots):
             return ("distinct FMMUs", slots, "two live mappings share an FMMU",
                     None)
+        # the master's slot table: live mappings hold exactly their slots,
+        # everything else is free (an ended mapping frees its own FMMU even
+        # if the switch-off datagram was not processed)
+        table = list(self.term.fmmu_used)
+        want = [None] * len(table)
+        for logical, write, cm, slot in self.live:
+            want[slots[logical]] = logical
+        if table != want:
+            return (want, table, "slot table: an ended mapping still holds "
+                    "its FMMU / a live one lost it", None)
         active = [i for i, r in enumerate(regs) if r[4]]
-        if sorted(active) != sorted(slots.values()):
+        if self.faults == 0 and sorted(active) != sorted(slots.values()):
             return ("only live mappings active: %s" % sorted(slots.values()),
                     active, "an ended mapping's FMMU is still active / a "
                     "foreign one was switched off", KF if any(
@@ -105,7 +138,7 @@ class World:
     def canon(self):
         return (self.fmmu_regs(),
                 tuple((l[1], l[3]) for l in self.live),
-                tuple(self.term.fmmu_used))
+                tuple(self.term.fmmu_used), self.faults)
 
 
 def build(n_fmmu, hist):
@@ -131,6 +164,9 @@ def work(n_fmmu, res):
             w.close()
             ops = [("map", False), ("map", True)] + \
                 [("unmap", j) for j in range(nlive)]
+            if work.faults and sum(1 for o in hist if len(o) > 2) < 1:
+                ops += [("map", False, True), ("map", True, True)] + \
+                    [("unmap", j, True) for j in range(nlive)]
             for op in ops:
                 h2 = hist + (op,)
                 w, results = build(n_fmmu, h2)
@@ -140,9 +176,13 @@ def work(n_fmmu, res):
                 res.outcomes.add((kind, len(w.live)))
                 case = dict(n_fmmu=n_fmmu, hist=h2)
                 bad = None
-                if kind in ("hang", "unmap failed"):
+                faulted = len(op) > 2
+                if kind == "hang" or (kind == "unmap raised"
+                                      and not faulted):
                     bad = ("operation completes", (kind, detail),
                            "map/unmap did not complete", None)
+                elif kind == "unmap raised":
+                    bad = w.check()
                 elif kind == "mapped":
                     # reference: a mapping succeeds only onto a free FMMU
                     bad = w.check()
@@ -176,6 +216,7 @@ def work(n_fmmu, res):
 
 def run(ctx):
     work.depth = 5 if ctx.quick else 6
+    work.faults = True
     res = core.pmap(ctx, work, [1, 2, 3, 4], chunk=1)
     res.cov["traces_validated_against_impl"] = res.cov.get("evaluations", 0)
     res.cov["depth"] = work.depth
